@@ -72,4 +72,20 @@ theorem slots_nodup (down : Nat → α → α) (w : WalkCfg) (F : GF) (p n k : N
   rw [slots_consecutive down w F p n k a x hpn]
   exact List.nodup_range'
 
+theorem linkages_length (down : Nat → α → α) (w : WalkCfg) (F : GF) : ∀ (p n k : Nat) (a : α),
+    (linkages down w F p n k a).length = F.size := by
+  induction F with
+  | nil => intro p n k a; rfl
+  | cons l nm kids rest ihk ihr => intro p n k a; simp [linkages, GF.size, ihk, ihr]; omega
+
+/-- every residue but the reducing end is the child of exactly one linkage: the children of the linkages are the ids n, n+1, … -/
+theorem linkages_children (down : Nat → α → α) (w : WalkCfg) (F : GF) : ∀ (p n k : Nat) (a : α),
+    (linkages down w F p n k a).map (·.2.1) = List.range' n F.size := by
+  induction F with
+  | nil => intro p n k a; rfl
+  | cons l nm kids rest ihk ihr =>
+    intro p n k a
+    simp only [linkages, List.map_cons, List.map_append, ihk, ihr, GF.size]
+    rw [show 1 + kids.size + rest.size = (kids.size + rest.size) + 1 by omega, List.range'_succ, ← List.range'_append_1]
+
 end Gly.Plan
